@@ -457,7 +457,12 @@ class cleanup_functools_wrapper(object):
 
 def autoforwards_function(func, args, kwargs):
     with cleanup_functools_wrapper(func):
-        sig = _signatures.signature(func)
+        try:
+            sig = _signatures.signature(func)
+        except ValueError:
+            # e.g. a C-level wrapper (functools.lru_cache) that has no
+            # signature of its own once __wrapped__ is set aside
+            raise UnknownForwards
     if not any_params_star(sig):
         raise UnknownForwards
     func_ast = _util.get_ast(func)
